@@ -58,7 +58,8 @@ def net_strategy(dll, max_stacks=4, max_msgs=8, allow_zero_latency=True, min_len
                 ai += 1
             stacks.append({"max_cmdt": draw(st.one_of(st.sampled_from(WINDOWS), st.integers(1, 255))),
                            "cas": cas, "ecu_listener": draw(st.booleans()),
-                           "lat": draw(_lat_list(allow_zero_latency))})
+                           "lat": draw(_lat_list(allow_zero_latency)),
+                           "tx_time": draw(st.sampled_from([0.0, 0.0, 0.0, 0.0001, 0.0005]))})
         unowned = [a for a in naddr[ai:]]
         nm = draw(st.integers(1, max_msgs))
         msgs = []
@@ -68,7 +69,7 @@ def net_strategy(dll, max_stacks=4, max_msgs=8, allow_zero_latency=True, min_len
             kind = draw(st.sampled_from(["p2p", "p2p", "p2p", "bc1", "bc2", "unowned"]))
             m = {"t": draw(st.sampled_from([0, 0, 0, 1, 2, 5, 10, 20, 50, 100])), "src": [si, ci], "kind": kind,
                  "dp": draw(st.integers(0, 1)), "prio": draw(st.integers(0, 7)),
-                 "ctx": draw(st.sampled_from(["app", "app", "timer"])),
+                 "ctx": draw(st.sampled_from(["app", "app", "timer", "on_rx"])),
                  "pl": draw(payload_spec(length, seg))}
             if kind == "bc2":
                 m["pf"] = draw(st.integers(240, 255))
@@ -110,7 +111,7 @@ def duration_bound(params, m, bam_dt):
     if not multi(params, m):
         return 0.0
     maxlat = max(max(s["lat"]) for s in params["stacks"])
-    slack = 2 * max(params["eps"]) + 2 * max(params["disp"]) + 0.0005
+    slack = 2 * max(params["eps"]) + 2 * max(params["disp"]) + 0.0005 + 3 * max(s.get("tx_time", 0.0) for s in params["stacks"])
     n = packets(params, m)
     if m["kind"] in ("bc1", "bc2"):
         return (n + 2) * (bam_dt + slack) + 0.1
@@ -188,7 +189,8 @@ def build_world(params, bam_dt=None, rts_cts_dt=None, **bus_kw):
     w = W.World(latency=lat, wake_eps=params["eps"], dispatch=params["disp"], **bus_kw)
     stacks = []
     for i, s in enumerate(params["stacks"]):
-        stk = w.stack("s%d" % i, dll=params["dll"], max_cmdt=s["max_cmdt"], bam_dt=bam_dt, rts_cts_dt=rts_cts_dt)
+        stk = w.stack("s%d" % i, dll=params["dll"], max_cmdt=s["max_cmdt"], bam_dt=bam_dt, rts_cts_dt=rts_cts_dt,
+                      tx_time=s.get("tx_time", 0.0))
         for j, ca in enumerate(s["cas"]):
             stk.add_ca("ca%d" % j, 0x1000 + 16 * i + j, ca["addr"], bypass=True)
             stk.listen_ca("ca%d" % j, "s%d.ca%d" % (i, j))
@@ -215,7 +217,18 @@ def submit_all(w, stacks, params, times, results):
         def via_timer(mi=mi, m=m, do=do):
             stacks[m["src"][0]].ecu.add_timer(0.0, lambda cookie: (do(), False)[1])
 
-        w.at(t, via_timer if m["ctx"] == "timer" else do)
+        def via_rx(mi=mi, m=m, do=do):
+            # the application sends from inside its receive callback (the next message delivered to its stack); if nothing
+            # arrives within 0.5 s it sends from the application context instead.  Only single-frame messages use this
+            # context (a multi-packet one would need a free address pair at an instant the model does not know).
+            stk = stacks[m["src"][0]]
+            stk.rx_hooks.append(lambda lname, mi=mi: do() if mi not in results else None)
+            w.sim.schedule(w.sim.now + 0.5, lambda mi=mi: do() if mi not in results else None)
+
+        if m["ctx"] == "on_rx" and not multi(params, m):
+            w.at(t, via_rx)
+        else:
+            w.at(t, via_timer if m["ctx"] == "timer" else do)
 
 
 def judge_deliveries(params, stacks, results, V, tag):
